@@ -197,6 +197,9 @@ def np_array(interp, name, args, kw, st, node):
     if tag == "float32":
         interp.event("shape-conflict", node, st, what="precision-loss: conversion to reduced precision", a=name, b="float32")
         return fresh_arr(T("cast", x.term, tag), shape(x), x.labels, tag)
+    if name == "numpy.array" and tag is None and args[0].kind == "list" and args[0].items is not None and len(args[0].items) == 0:
+        # np.array([]) is an empty *float64* array: usable as a value, not as an index
+        return fresh_arr(T("list"), (Dim(0),), frozenset(), "float-empty")
     sh = shape(x)
     interp.event("copy", node, st, source=x)
     if x.kind in ("arr", "int", "float", "bool"):
